@@ -38,6 +38,17 @@ def main():
                 checks[pid] = dict(exit=rc, output=lines)
                 if rc == 1 and any(l.startswith('VIOLATION') for l in lines):
                     det.append(pid)
+                    # the failing history goes into the regression corpus of the property (run first by every later check)
+                    try:
+                        rp = [l for l in lines if l.startswith('VIOLATION')][0].split('replay=')[1].split()[0]
+                        fi = json.load(open(rp)).get('violation', {}).get('failing_input') or {}
+                        if fi.get('history') and len(fi['history']) <= 400:
+                            os.makedirs(f'{V}/corpus/{pid}', exist_ok=True)
+                            json.dump(dict(history=fi['history'], elem=fi.get('elem', 'tr'), debug=fi.get('debug', 1),
+                                           threads=fi.get('threads', 0), delay=fi.get('delay', 0), origin=f'seeded change {tag}'),
+                                      open(f'{V}/corpus/{pid}/{tag}.json', 'w'), indent=1)
+                    except Exception as e:
+                        print('corpus: could not store', tag, pid, e)
         finally:
             sh('git -C /repo checkout -- .')
         meta.update(checks=checks, detected_by=det, repo_head=head, applies_to_head=True)
